@@ -106,6 +106,9 @@ class NdNode(Node):
         except ValueError:
             return Rej('ragged nested sequence')
         try:
+            if self.dt is not None and self.dt != 'generic':
+                # the declared element type (an int outside a narrower integer dtype makes numpy raise: a rejection)
+                return Acc(numpy.array(res, dtype=DTYPES[self.dt][0]))
             return Acc(numpy.array(res))
         except Exception as e:
             return Rej(f'numpy.array raised {type(e).__name__}')
